@@ -25,13 +25,14 @@ verus! {
 #[verifier::external_body] pub struct PathBuf { _p: () }
 #[verifier::external_body] pub struct Path { _p: () }
 #[verifier::external_body] pub struct EvalError { _p: () }
-#[verifier::external_body] pub struct Token { _p: () }
-#[verifier::external_body] pub struct LexError { _p: () }
-#[verifier::external_body]
-#[verifier::reject_recursive_types(L)]
-#[verifier::reject_recursive_types(T)]
-#[verifier::reject_recursive_types(E)]
-pub struct ParseError<L, T, E> { _p: core::marker::PhantomData<(L, T, E)> }
+// lalrpop_util::ParseError (public definition of the dependency, version pinned by Cargo.lock): ASSUMED shape
+pub enum ParseError<L, T, E> {
+    InvalidToken{location: L},
+    UnrecognizedEof{location: L, expected: Vec<String>},
+    UnrecognizedToken{token: (L, T, L), expected: Vec<String>},
+    ExtraToken{token: (L, T, L)},
+    User{error: E},
+}
 pub struct StacktracedErrorMsg { pub stacktrace: Vec<String>, pub msg: String }
 pub uninterp spec fn shown_usize(n: usize) -> Seq<char>;
 pub uninterp spec fn shown_io_error(e: IoError) -> Seq<char>;
@@ -93,8 +94,40 @@ pub uninterp spec fn sem_run(path: Seq<char>) -> std::result::Result<(), Error>;
 #[verifier::external_body]
 pub fn run(p: &Path) -> (r: std::result::Result<(), Error>) ensures r == sem_run(p.of()) { unimplemented!() }
 pub uninterp spec fn sem_parse_error(e: ParseError<(usize, usize), Token, LexError>) -> ((usize, usize), String);
+// (main sees render_parse_error only through this uninterpreted function; its own contract is below)
 #[verifier::external_body]
-pub fn render_parse_error(e: ParseError<(usize, usize), Token, LexError>) -> (r: ((usize, usize), String)) ensures r == sem_parse_error(e) { unimplemented!() }
+pub fn render_parse_error_(e: ParseError<(usize, usize), Token, LexError>) -> (r: ((usize, usize), String)) ensures r == sem_parse_error(e) { unimplemented!() }
+pub uninterp spec fn shown_char(c: char) -> Seq<char>;
+pub uninterp spec fn debug_token(t: Token) -> Seq<char>;
+impl Disp for char { open spec fn shown(&self) -> Seq<char> { shown_char(*self) } }
+pub trait Dbg { spec fn debugged(&self) -> Seq<char>; }
+impl Dbg for Token { open spec fn debugged(&self) -> Seq<char> { debug_token(*self) } }
+impl<T: Dbg> Dbg for &T { open spec fn debugged(&self) -> Seq<char> { (**self).debugged() } }
+#[verifier::external_body]
+pub fn fmt_dbg<T: Dbg>(x: &T) -> (r: String) ensures r@ == x.debugged() { unimplemented!() }
+#[verifier::external_body]
+pub fn str_to_string(s: &str) -> (r: String) ensures r@ == s@ { unimplemented!() }
+#[verifier::external_body]
+pub fn render_token(t: Token) -> String { unimplemented!() }
+#[verifier::external_body]
+pub fn join_strings(xs: &Vec<String>) -> String { unimplemented!() }
+// "the position attached to a lexical error is that of the offending character, to a parse error that of the unexpected token"
+pub open spec fn parse_error_position(e: ParseError<(usize, usize), Token, LexError>) -> (usize, usize) {
+    match e {
+        ParseError::InvalidToken{location} => location,
+        ParseError::UnrecognizedEof{location, ..} => location,
+        ParseError::UnrecognizedToken{token, ..} => token.0,      // where the unexpected token STARTS
+        ParseError::ExtraToken{token} => token.0,
+        ParseError::User{error} => match error {
+            LexError::Unexpected(loc, _) => loc,
+            LexError::IntOverflow(loc, _) => loc,
+            LexError::UnescapedDollar(loc) => loc,
+            LexError::InvalidInterpolationStart(loc, _) => loc,
+            LexError::InvalidEscapeChar(loc, _) => loc,
+            LexError::InvalidHexChar(loc, _) => loc,
+        },
+    }
+}
 pub uninterp spec fn sem_stacktrace(path: PathBuf, e: EvalError) -> StacktracedErrorMsg;
 #[verifier::external_body]
 pub fn eval_err_to_stacktrace(path: &PathBuf, func: Option<&str>, error: EvalError) -> (r: StacktracedErrorMsg)
@@ -151,6 +184,21 @@ def build(read):
     f = extract.rewrite_once(f, "std::env::args()", "env_args()", "main: env::args")
     f, kj = re.subn(r"(\w+(?:\.\w+)*)\.join\((\"[^\"]*\")\)", r"join_strs(&\1, \2)", f)
     b.edits.append(f"D5: `std::env::args()` -> env_args(); {kj}x `v.join(sep)` -> join_strs(&v, sep) (assumed std contracts)")
+    f = extract.rewrite_once(f, "render_parse_error(src)", "render_parse_error_(src)", "main: render_parse_error call")
+    # ---- render_parse_error (C18)
+    rpe = extract.strip_comments(extract.extract_item(src, "fn", "render_parse_error"))
+    b.copied.append(("fn", "render_parse_error", "src/main.rs", extract.item_line(src, "fn", "render_parse_error")))
+    lsrc = read("src/lexer/mod.rs")
+    tok = extract.strip_attributes(extract.strip_comments(extract.extract_item(lsrc, "enum", "Token")))[0]
+    lerr = extract.strip_attributes(extract.strip_comments(extract.extract_item(lsrc, "enum", "LexError")))[0]
+    for k_, n_ in [("enum", "Token"), ("enum", "LexError")]:
+        b.copied.append((k_, n_, "src/lexer/mod.rs", extract.item_line(lsrc, k_, n_)))
+    rpe, n2 = pr_unit.expand_format_macros(rpe, "render_parse_error", ("format",))
+    rpe, n3 = re.subn(r"(\"(?:[^\"\\\\]|\\\\.)*\")\.to_string\(\)", r"str_to_string(\1)", rpe)
+    b.edits.append(f"D6: render_parse_error: {n2} `format!` invocations expanded, {n3}x `\"..\".to_string()` -> str_to_string(..)")
+    rpe = extract.annotate_fn(rpe, spec="""
+    ensures r.0 == parse_error_position(error), // [C18:the_position_of_a_syntax_error_is_where_the_offending_character_or_unexpected_token_starts]
+""")
     hdr, body = extract.fn_header_body(f)
     if not re.match(r"\s*fn main\(\)\s*$", hdr):
         raise Undecided("main: unexpected signature")
@@ -164,7 +212,8 @@ def build(read):
     b.text = assemble([
         "// GENERATED on every run by /verif/verus/main_report.py from /repo's working tree - do not edit",
         MODEL,
-        "// ---- verbatim from src/main.rs", "pub " + err.lstrip(),
+        "pub type Location = (usize, usize);\npub type InterpSlot = (usize, usize);\n// ---- verbatim from src/lexer/mod.rs", tok, lerr,
+        "// ---- verbatim from src/main.rs", "pub " + err.lstrip(), rpe,
         "// ---- function under contract (verbatim body apart from the listed edits; contract text inserted)",
         "pub mod seed_main {\n    use super::*;\n" + f + "\n}", parts.FOOTER,
     ])
